@@ -241,6 +241,33 @@ fn check_polyline(ctx: &mut Ctx, v: &[Point], tr: Point) {
     if px != want {
         ctx.violation("polyline|1px-stroke-differs-from-segment-lines", case, || format!("{} pixels, expected {}", px.len(), want.len()));
     }
+    // what draw() leaves on a target is that union too: unbounded, and bounded targets whose edges
+    // coincide with / cut through the (translated) polyline (every fourth case)
+    if got == want && !want.is_empty() && (want.len() + v.len()) % 4 == 0 {
+        use egmon::target::{cut_boxes, restrict, unbounded_box, IterTarget, NativeTarget, PixMap};
+        ctx.eval();
+        let mut wm = PixMap::new();
+        for q in &want {
+            wm.set(q.x, q.y, 1);
+        }
+        let mut boxes = vec![unbounded_box()];
+        if let Some(cut) = cut_boxes(&wm) {
+            boxes.push(cut[(wm.hash() / 7 % 5) as usize]);
+        }
+        let styled = pl.into_styled(PrimitiveStyle::with_stroke(BinaryColor::On, 1));
+        for bx in boxes {
+            let mut a = IterTarget::<BinaryColor>::new(bx);
+            let mut b = NativeTarget::<BinaryColor>::new(bx);
+            let _ = styled.draw(&mut a);
+            let _ = styled.draw(&mut b);
+            let want_in = restrict(&wm, &bx);
+            if !a.log.map.same(&want_in) || !b.log.map.same(&want_in) {
+                ctx.violation("polyline|draw-differs-from-segment-lines-inside-the-target", || format!("{} on target box {:?}", case(), egmon::target::rt(&bx)), || format!("first difference {:?} / {:?} (x, y, drawn, expected; draw_iter-only / native target)", a.log.map.first_diff(&want_in), b.log.map.first_diff(&want_in)));
+                break;
+            }
+        }
+        ctx.count("polylines_drawn_on_targets", 1);
+    }
     ctx.count("polyline_points", got.len() as u64);
     if want.len() >= 2 {
         ctx.nontrivial(egmon::rng::hash_str(&case()));
